@@ -8,7 +8,7 @@ from fractions import Fraction as F
 from harness.impl import Q, enc_list
 
 from eudoxia.simulator import get_param_defaults
-from eudoxia.workload import WorkloadGenerator
+from eudoxia.workload import Workload, WorkloadGenerator
 from eudoxia.workload.csv_io import CSVOperatorRow, CSVWorkloadReader, CSVWorkloadWriter, WorkloadTraceGenerator
 
 ID = 'C13'
@@ -227,6 +227,34 @@ class Recorder:
         return ps
 
 
+class CountingWorkload(Workload):
+    """an empty workload that counts how often run_simulator asks it for a tick"""
+
+    def __init__(self):
+        self.n = 0
+
+    def run_one_tick(self):
+        self.n += 1
+        return []
+
+
+def ticks_run_executes(params):
+    from eudoxia.simulator import run_simulator
+    import logging
+    w = CountingWorkload()
+    logging.disable(logging.CRITICAL)
+    try:
+        run_simulator(dict(params, scheduler_algo='naive', num_pools=1), workload=w)
+    finally:
+        logging.disable(logging.NOTSET)
+    return w.n
+
+
+# durations whose product with the tick rate lands just BELOW a whole number of ticks (0.29 s * 100 = 28.999999999999996)
+SHORT_PRODUCTS = {tps: [k / tps for k in range(1, 2500 if tps == 1000 else 400) if (k / tps) * tps < k]
+                  for tps in (100, 1000, 10000, 60, 333)}
+
+
 def gentrace_case(rec):
     params = get_param_defaults()
     params.update(rec['params'])
@@ -242,7 +270,8 @@ def gentrace_case(rec):
             ids.append(row.pipeline_id)
     text = f.getvalue()
     gen_ticks = [t for t, c in enumerate(rw.counts) for _ in range(c)]
-    nticks = int(params['duration'] * tps)        # run_simulator's max_ticks
+    nticks = int(params['duration'] * tps)        # run_simulator's max_ticks, as documented ...
+    run_ticks = ticks_run_executes(params)          # ... and as executed
     cells = arrival_cells(text)
     hits = []
     # what `run` does with the same parameters: a fresh generator asked once per tick for nticks ticks
@@ -253,6 +282,11 @@ def gentrace_case(rec):
         hits.append(dict(desc=f'run generates {len(direct_ticks)} pipelines in {nticks} ticks (duration {params["duration"]} s at '
                               f'{tps} ticks/s), gentrace wrote {len(gen_ticks)} from {len(rw.counts)} ticks; first difference at '
                               f'pipeline {k}', signature='roundtrip-count', recipe=rec, gen=rec['gen']))
+    if run_ticks != len(rw.counts):
+        hits.append(dict(desc=f'run executes {run_ticks} ticks for duration {params["duration"]} s at {tps} ticks/s '
+                              f'(duration * ticks_per_second = {params["duration"] * tps!r}), gentrace covers {len(rw.counts)}: '
+                              f'`run` and `gentrace` + `run -w` do not simulate the same span', signature='roundtrip-count',
+                         recipe=rec, gen=rec['gen']))
     if len(cells) != len(gen_ticks) or len(ids) != len(cells) or tg.max_ticks != len(rw.counts):
         hits.append(dict(desc=f'trace has {len(cells)} pipelines, generator produced {len(gen_ticks)} in {len(rw.counts)} '
                               f'ticks (max_ticks {tg.max_ticks})', signature='roundtrip-count', recipe=rec, gen=rec['gen']))
@@ -383,6 +417,8 @@ def gentrace_recipe(rng):
                   waiting_seconds_mean=(wait_ticks + rng.choice([0, 0.25])) / tps,
                   num_pipelines=rng.choice([1, 1, 2, 4]), num_operators=rng.choice([1, 2, 5]),
                   random_seed=rng.randint(0, 10 ** 6))
+    if SHORT_PRODUCTS.get(tps) and rng.random() < 0.5:
+        params['duration'] = rng.choice(SHORT_PRODUCTS[tps])
     return dict(gen='G-gentrace', params=params)
 
 
